@@ -3446,7 +3446,8 @@ theorem step_release {K : Kind} {cfg : Cfg} {st : State} {m : Mon} (hi : Inv K c
         releaseStep st id = { st with handles := st.handles.filter (fun x => !(x.id == id)), inflight := infl } →
         StepOK K cfg st m (.release id) := by
       intro infl hs
-      apply stepOK_request hop hi _ (by simp only [step, hs]) rfl rfl rfl rfl rfl (Or.inl rfl)
+      apply stepOK_request hop hi { st with handles := st.handles.filter (fun x => !(x.id == id)), inflight := infl }
+        (by simp only [step, hs]) rfl rfl rfl rfl rfl (Or.inl rfl)
       · apply flInv_pop_none (id := id) hi.fl hcache
         · exact hcache
         · rfl
@@ -3468,8 +3469,9 @@ theorem step_release {K : Kind} {cfg : Cfg} {st : State} {m : Mon} (hi : Inv K c
         (m.tainted = false → c'.fl.remCount = c.fl.remCount - (if flagOf c h then 1 else 0)) →
         StepOK K cfg st m (.release id) := by
       intro c' infl hs hloc hrem hls hev ho hn hcount
-      apply stepOK_request hop hi _ (by simp only [step, hs]) rfl rfl rfl rfl rfl
-        (Or.inr ⟨c, c', hcache, rfl, hloc, hrem, hls⟩)
+      apply stepOK_request hop hi
+        { st with handles := st.handles.filter (fun x => !(x.id == id)), inflight := infl, cache := some c' }
+        (by simp only [step, hs]) rfl rfl rfl rfl rfl (Or.inr ⟨c, c', hcache, rfl, hloc, hrem, hls⟩)
       · apply flInv_pop (id := id) (h := h) hi.fl hcache
         · rfl
         · exact hfind
@@ -3640,6 +3642,8 @@ theorem monLe_next {m : Mon} {G : Bound} (h : MonLe m G) (op : Op) (o : Obs)
     | meter _ => exact h.sch s hs
     | setLimit _ => exact h.sch s hs
     | event => exact h.sch s hs
+    | acquire _ => exact h.sch s hs
+    | release _ => exact h.sch s hs
     | tick _ _ => exact h.sch s hs
 
 /-- along every allowed operation list whose schemas' global limits are all within `G`, every remote limiter ever
